@@ -120,6 +120,15 @@ func (cl *cluster) stateOracles(v controller.VerifView) {
 			}
 		}
 	}
+	if cl.wants("c13") && quiescent && len(rw) > 1 {
+		// a volume snapshot (user or add-time) is on every replica in service or on none: RW replicas list the same chain
+		c0 := cl.nodes[rw[0]].View().Chain
+		for _, n := range rw[1:] {
+			if cn := cl.nodes[n].View().Chain; fmt.Sprint(cn) != fmt.Sprint(c0) {
+				cl.violate("snapshot", "rw-replicas-differ-in-chain", fmt.Sprintf("RW replicas list different snapshot chains: node %d %v, node %d %v", rw[0], c0, n, cn))
+			}
+		}
+	}
 	if cl.wants("c13") && quiescent {
 		if v.Checkpoint != "" {
 			if len(rw) != cl.cfg.RF {
@@ -498,6 +507,18 @@ func (cl *cluster) enabled() []string {
 			for i := range cl.nodes {
 				if _, ok := attached[i]; !ok && !cl.down[i] {
 					out = append(out, fmt.Sprintf("Add:%d", i))
+				}
+			}
+		case "AddSnapF":
+			if len(v.Replicas) == 0 || (c.MaxAdds > 0 && cl.nAdds >= c.MaxAdds) || !faultsLeft(1) {
+				continue
+			}
+			for i := range cl.nodes {
+				if _, ok := attached[i]; ok || cl.down[i] {
+					continue
+				}
+				for _, fn := range nonErr {
+					out = append(out, fmt.Sprintf("AddSnapF:%d:%d", i, fn))
 				}
 			}
 		case "AddB":
